@@ -78,3 +78,7 @@ PROPS["C18"] = {"units": [
     rapid_unit("bridge", "bridge", "^TestC18Bridge$", 1500, 16 * 15000),
     rapid_unit("dpipe", "bridge", "^TestC18Dpipe$", 5000, 16 * 100000),
 ]}
+
+PROPS["C16"] = {"units": [
+    rapid_unit("in-package", "vfilter", "^TestC16Loss$", 1500, 16 * 6000, overlay="full"),
+]}
